@@ -81,6 +81,10 @@ def make_iter_value(ex, v, st, desc):
             st2.assume(S.has_type(t, et, st2.next_ref))
             return V(t, et)
         return Iter(z3.Length(seq), elem, seq, None, 'tuple')
+    if k == 'str':
+        # iteration over a str: its characters (one-character strings) by position
+        sv = S.sval(v.t)
+        return Iter(z3.Length(sv), lambda i, st2, sv=sv: V(S.mk_str(z3.SubString(sv, i, 1)), S.Str), None, None, 'str')
     if k == 'dict':
         return dict_iter(ex, v, ty, st, 'keys')
     if k == 'set':
@@ -176,6 +180,8 @@ def discover_modified_fields(ex, body_runner, st):
     gchanged = set()
     probing = getattr(ex, '_probing', 0)
     ex._probing = probing + 1
+    mark = next(S._counter)            # constants named <x>!N with N > mark are created by the probe
+    writes = {}                        # field -> list of address terms (None: not a plain chain of stores)
     try:
         outs = body_runner(probe)
         for o in outs:
@@ -183,6 +189,9 @@ def discover_modified_fields(ex, body_runner, st):
                 b = before.get(k, ex.init_heap.get(k))
                 if b is None or not (v is b or v.eq(b)):
                     changed.add(k)
+                    if writes.get(k, []) is not None:
+                        addrs = _store_chain(v, b)
+                        writes[k] = None if addrs is None else writes.get(k, []) + addrs
             for k, v in o.st.ghost.items():
                 if k.startswith('loop') or not isinstance(v, z3.ExprRef):
                     continue
@@ -194,7 +203,60 @@ def discover_modified_fields(ex, body_runner, st):
         ex.vcs, ex.counters, ex.covers, ex.paths = saved[0], saved[1], saved[2], saved[3]
         ex.used_trusted, ex.assumed_contracts, ex.called_contracts, ex.try_stack = saved[4], saved[5], saved[6], saved[7]
     ex._last_ghost_changed = gchanged
+    # inferred frame for loops WITHOUT a `modifies` clause: the probe explored every syntactic path of the body; when every write to a field is a plain store at an
+    # address term that cannot vary between iterations (no probe-created constant, no read of a heap field the body changes), the loop changes that field at these
+    # addresses only (and at objects it allocates)
+    bad_arrays = [before.get(k, ex.init_heap.get(k)) for k in changed]
+    bad_arrays = [b for b in bad_arrays if b is not None]
+    inferred = {}
+    for k, addrs in writes.items():
+        if addrs is not None and all(_iteration_invariant(a, mark, bad_arrays) for a in addrs):
+            uniq = []
+            for a in addrs:
+                if not any(a.eq(u) for u in uniq):
+                    uniq.append(a)
+            if len(uniq) <= 6:
+                inferred[k] = uniq
+    ex._last_inferred_frame = inferred
     return changed
+
+
+def _store_chain(v, base):
+    """address terms of v == Store(...Store(base, a1, _)..., an, _), or None when v is not such a chain over `base`"""
+    out = []
+    for _ in range(64):
+        if base is not None and (v is base or v.eq(base)):
+            return out
+        if z3.is_app(v) and v.decl().kind() == z3.Z3_OP_STORE:
+            out.append(v.arg(1))
+            v = v.arg(0)
+            continue
+        return None
+    return None
+
+
+def _iteration_invariant(a, mark, bad_arrays):
+    seen = set()
+    stack = [a]
+    while stack:
+        t = stack.pop()
+        if t.get_id() in seen:
+            continue
+        seen.add(t.get_id())
+        if z3.is_quantifier(t) or z3.is_var(t):
+            return False
+        if any(t.eq(b) for b in bad_arrays):
+            return False
+        if z3.is_const(t) and t.decl().kind() == z3.Z3_OP_UNINTERPRETED:
+            nm = t.decl().name()
+            if nm.startswith('pv_'):          # the probe's stand-in for a local the body assigns (created before `mark`)
+                return False
+            if '!' in nm:
+                tail = nm.rsplit('!', 1)[1]
+                if not tail.isdigit() or int(tail) > mark:
+                    return False
+        stack.extend(t.children())
+    return True
 
 
 def havoc_for_loop(ex, st, spec, names, fields, cx_head):
@@ -228,7 +290,10 @@ def havoc_for_loop(ex, st, spec, names, fields, cx_head):
         newt = S.fresh('lh_' + fld, oldt.sort())
         a = z3.Int('fa')
         if sp is True:
-            pass
+            inf = getattr(ex, '_last_inferred_frame', {}).get(fld) if modspec is None else None
+            if inf is not None:
+                h.assume(z3.ForAll([a], z3.Implies(z3.And(a > 0, a < old_next, *[a != r for r in inf]),
+                                                   z3.Select(newt, a) == z3.Select(oldt, a)), patterns=[z3.Select(newt, a)]))
         elif sp is None:
             # body writes it (probe) but the loop frame says untouched for pre-existing objects
             h.assume(z3.ForAll([a], z3.Implies(z3.And(a > 0, a < old_next), z3.Select(newt, a) == z3.Select(oldt, a)),
@@ -255,6 +320,8 @@ def check_loop_frame(ex, st_end, st_loop_entry, modspec, fields, tag):
     for fld in sorted(fields):
         sp = modspec.get(fld, None)
         if sp is True:
+            continue
+        if fld.startswith('attr:') and fld[5:] in getattr(ex, 'unmodelled_attrs', ()):
             continue
         a = z3.Int('lf_a')
         outside = z3.And(a > 0, a < old_next)
